@@ -4,6 +4,7 @@ import (
 	"go/ast"
 	"go/token"
 	"go/types"
+	"strconv"
 	"strings"
 
 	"golang.org/x/tools/go/ssa"
@@ -51,6 +52,7 @@ func runC19(c *Ctx) {
 	c.c19Stream()
 	c.c19StreamStops()
 	c.c19GraceReadEveryRound()
+	c.c19ConversionsAssertWhatTheyReturn()
 	c.c19StreamCurrentPage()
 	c.c19StreamGetNext()
 	c.c19GraceFromDryUp()
@@ -1512,4 +1514,54 @@ func (c *Ctx) c19GraceReadEveryRound() {
 		}
 	}
 	c.ok("E17", key, c.ipos(found[0].at), "the instant compared with the grace period is read in the round that compares it")
+}
+
+// c19ConversionsAssertWhatTheyReturn (E18): "yields every item of every page … for the static, dynamic and stream paginators".
+// The helpers that turn a page into the kind of page a paginator needs (toDynamicPage, toDynamicStream) answer "this page
+// is not of that kind" for whatever fails their type assertion, and the paginator takes that for the end of the pages.
+// The assertion is to the type the helper returns: asserted to a narrower interface (a stream, where a dynamic page is
+// returned) every page that is a perfectly good page of the returned kind is refused, and the iteration ends after the
+// first page without an error.
+func (c *Ctx) c19ConversionsAssertWhatTheyReturn() {
+	c.rule("E18", "a helper of package pagination that returns the outcome of a checked type assertion asserts the very type it returns: no page is refused for lacking methods the result does not need", 2)
+	for _, f := range c.srcFuncs(pagPkg) {
+		if f.Blocks == nil || f.Signature.Results().Len() == 0 {
+			continue
+		}
+		rt := f.Signature.Results().At(0).Type()
+		if _, isIface := rt.Underlying().(*types.Interface); !isIface {
+			continue
+		}
+		n := 0
+		allInstrs(f, func(in ssa.Instruction) {
+			ta, ok := in.(*ssa.TypeAssert)
+			if !ok || !ta.CommaOk {
+				return
+			}
+			// does the asserted value reach the first result?
+			reaches := false
+			allInstrs(f, func(j ssa.Instruction) {
+				r, ok := j.(*ssa.Return)
+				if !ok || len(r.Results) == 0 {
+					return
+				}
+				for _, l := range sources(r.Results[0], deriveOpts{}) {
+					if ex, ok := l.(*ssa.Extract); ok && ex.Tuple == ssa.Value(ta) && ex.Index == 0 {
+						reaches = true
+					}
+				}
+			})
+			if !reaches {
+				return
+			}
+			key := fname(f) + "/asserts-what-it-returns"
+			if n > 0 {
+				key += "#" + strconv.Itoa(n)
+			}
+			n++
+			c.FuncsSeen[fname(f)] = true
+			c.check(types.Identical(ta.AssertedType, rt), "E18", key, c.ipos(ta), "the assertion is to the type returned",
+				"the value returned as "+types.TypeString(rt, nil)+" is obtained by asserting "+types.TypeString(ta.AssertedType, nil)+", an interface that asks for more: a page that is a good "+types.TypeString(rt, nil)+" but lacks the extra methods is refused as 'not dynamic', the paginator takes the refusal for the end of the pages, and the iteration stops after the first page without an error")
+		})
+	}
 }
